@@ -312,9 +312,9 @@ class _Inliner:
         h, base = self.helper(call)
         if h is None or not any(isinstance(x, (ast.Yield, ast.YieldFrom)) for x in walk_local(h.node)):
             return None
-        if any(isinstance(x, (ast.YieldFrom, ast.Try, ast.With, ast.Return)) for x in walk_local(h.node)):
+        if any(isinstance(x, (ast.Try, ast.With, ast.Return)) for x in walk_local(h.node)):
             return None
-        if any(isinstance(x, ast.Yield) and not isinstance(getattr(x, "_parent", None), ast.Expr) for x in walk_local(h.node)):
+        if any(isinstance(x, (ast.Yield, ast.YieldFrom)) and not isinstance(getattr(x, "_parent", None), ast.Expr) for x in walk_local(h.node)):
             return None  # the value of a yield expression is used (send protocol)
         self.count += 1
         tag = "g%d" % self.count
@@ -365,10 +365,22 @@ class _Inliner:
         prelude, subst = b
         body = _body_copy(h, subst)
 
+        is_for = isinstance(st, ast.For)
+        me = self
+
         class Y(ast.NodeTransformer):
             def visit_Expr(self, n):
                 if isinstance(n.value, ast.Yield):
                     return emit(n.value.value if n.value.value is not None else ast.Constant(value=None), n)
+                if isinstance(n.value, ast.YieldFrom):
+                    # yield from E  ==  for v in E: yield v   (as a statement): the consumer's loop runs over E directly
+                    if is_for:
+                        lp = ast.For(target=copy_tree(st.target), iter=n.value.value, body=[copy_tree(x) for x in body_t], orelse=[])
+                    else:
+                        me.count += 1
+                        v = "item__y%d" % me.count
+                        lp = ast.For(target=ast.Name(id=v, ctx=ast.Store()), iter=n.value.value, body=emit(ast.Name(id=v, ctx=ast.Load()), n), orelse=[])
+                    return [ast.fix_missing_locations(ast.copy_location(lp, n))]
                 return n
 
             def visit_FunctionDef(self, n):
@@ -536,4 +548,63 @@ def inlined_view(P, f, keep=()):
     g = FuncInfo(f.name, f.qualname, f.module, f.cls, node, f.role, f.prop)
     g.inlined_helpers = sorted(set(inl.inlined))
     _cache[key] = g
+    return g
+
+
+
+_unmerge_cache = {}
+
+
+def unmerged_view(P, f, max_rest=40):
+    """FuncInfo of f in which the statements that follow `if isinstance(v, K): A else: B` (both branches falling through) and read `v`
+    are moved into both branches.  Nothing changes but the shape: each copy is then analysed knowing which kind `v` has — what a
+    path-sensitive typing of the merged tail would give.  Keys and names are f's."""
+    key = (id(P), f.key)
+    if key in _unmerge_cache:
+        return _unmerge_cache[key]
+
+    def falls(stmts):
+        return not (stmts and isinstance(stmts[-1], (ast.Return, ast.Raise, ast.Continue, ast.Break)))
+
+    def count(stmts):
+        return sum(1 for s_ in stmts for x in ast.walk(s_) if isinstance(x, ast.stmt))
+    changed = [False]
+
+    def block(stmts, depth=0):
+        out = []
+        for i, st in enumerate(stmts):
+            for fld in ("body", "orelse", "finalbody"):
+                sub = getattr(st, fld, None)
+                if isinstance(sub, list) and sub and isinstance(sub[0], ast.stmt) and not isinstance(st, (ast.FunctionDef, ast.AsyncFunctionDef, ast.ClassDef)):
+                    setattr(st, fld, block(sub, depth))
+            rest = stmts[i + 1:]
+            if isinstance(st, ast.If) and st.orelse and rest and depth < 3:
+                t = st.test
+                if isinstance(t, ast.UnaryOp) and isinstance(t.op, ast.Not):
+                    t = t.operand
+                if isinstance(t, ast.Call) and isinstance(t.func, ast.Name) and t.func.id == "isinstance" and len(t.args) == 2 and isinstance(t.args[0], ast.Name):
+                    v = t.args[0].id
+                    reads = any(isinstance(x, ast.Name) and x.id == v and isinstance(x.ctx, ast.Load) for s_ in rest for x in ast.walk(s_))
+                    rebinds = any(isinstance(x, ast.Name) and x.id == v and not isinstance(x.ctx, ast.Load) for s_ in st.body + st.orelse for x in ast.walk(s_))
+                    if reads and not rebinds and falls(st.body) and falls(st.orelse) and count(rest) <= max_rest \
+                            and not any(isinstance(x, (ast.FunctionDef, ast.Lambda)) for s_ in rest for x in ast.walk(s_)):
+                        st.body = st.body + block([copy_tree(s_) for s_ in rest], depth + 1)
+                        st.orelse = st.orelse + block([copy_tree(s_) for s_ in rest], depth + 1)
+                        out.append(st)
+                        changed[0] = True
+                        return out
+            out.append(st)
+        return out
+    node = copy_tree(f.node)
+    node.body = block(node.body)
+    if not changed[0]:
+        _unmerge_cache[key] = f
+        return f
+    ast.fix_missing_locations(node)
+    for parent in ast.walk(node):
+        for child in ast.iter_child_nodes(parent):
+            child._parent = parent
+    node._parent = getattr(f.node, "_parent", None)
+    g = FuncInfo(f.name, f.qualname, f.module, f.cls, node, f.role, f.prop)
+    _unmerge_cache[key] = g
     return g
